@@ -134,6 +134,49 @@ func runSss(r *prng.R, s *out.Sink, tier string) {
 			}
 		}
 	}
+	// --- large thresholds and evaluation points: evaluation must stay in the field (no native-integer arithmetic) ---
+	for _, im := range impls {
+		for _, t := range []int{2, 3, 5, 9, 10, 12, 13, 16, 17, 20, 33, 64} {
+			poly, _ := im.gen(t, 1, r.Fork())
+			coeffs := make([]string, len(poly))
+			for i, z := range poly {
+				coeffs[i] = zrDec(z)
+			}
+			for _, x := range []int{1, 2, 3, 7, 15, 16, 17, 19, 23, 31, 40, 64, 128, 255, 256, 1000, 65535} {
+				s.Op(im.name+"/valueat-large", true, fmt.Sprintf("sss valueat %s %s %d", p, strings.Join(coeffs, ","), x), zrDec(im.valueAt(poly, x)))
+			}
+		}
+		// dealing and reconstructing with many parties: the top t points and a spread subset
+		for _, nt := range [][2]int{{17, 17}, {20, 16}, {24, 15}, {40, 13}} {
+			n, t := nt[0], nt[1]
+			poly, shares := im.gen(t, n, r.Fork())
+			secret := zrDec(poly[0])
+			shs := make([]string, len(shares))
+			for i, z := range shares {
+				shs[i] = zrDec(z)
+			}
+			var top, spread []int64
+			for i := n - t + 1; i <= n; i++ {
+				top = append(top, int64(i))
+			}
+			for i := 1; len(spread) < t; i += 1 + (n-t)/t {
+				if i > n {
+					break
+				}
+				spread = append(spread, int64(i))
+			}
+			for _, S := range [][]int64{top, spread} {
+				if len(S) < t {
+					continue
+				}
+				res := safely(func() string { return zrDec(im.reconstr(shares, S...)) })
+				s.Op(im.name+"/reconstruct-large", true, fmt.Sprintf("sss reconstruct %s %s %s", p, strings.Join(shs, ","), ints(S)), res)
+				if res != secret {
+					s.Violate("C18", fmt.Sprintf("%s: n=%d t=%d: shares at points %v reconstruct %s, dealt secret %s", im.name, n, t, S, res, secret), fmt.Sprintf("n=%d t=%d S=%v", n, t, S))
+				}
+			}
+		}
+	}
 	// --- group level, public API flavour: keys of the shares aggregate to the key of the secret;
 	// the t-subset cross-check catches one off-polynomial key whichever party it belongs to ----
 	gN := 5
